@@ -61,14 +61,11 @@ Definition v1_raw (cd : coldesc) (p : lpage) : bytes :=
   ++ store_bytes cd (lp_store p) ++ lp_trail p.
 
 (* dictionary encoding is not defined for BOOLEAN columns (the reader forces width 1 there) *)
-Definition store_ok_for_reader (cd : coldesc) (s : vstore) : Prop :=
-  match s with SDict _ _ _ => cd_type cd <> BOOLEAN | _ => True end.
-
 Theorem rd_col_page_v1_spec cd dict p cs :
-  page_wf cd p -> store_ok_for_reader cd (lp_store p) -> page_cells cd dict p = Some cs ->
+  page_wf cd p -> page_cells cd dict p = Some cs ->
   rd_col_page false cd dict (v1_header p) (v1_raw cd p) = ROk cs.
 Proof.
-  intros [LW SW] RO PC. unfold page_cells in PC.
+  intros [LW SW] PC. unfold page_cells in PC.
   set (lv := page_levels cd p) in *.
   destruct (store_values cd dict (count_def (cd_maxdef cd) lv) (lp_store p)) as [vs|] eqn:SV; [|discriminate].
   (* levels as the reader sees them *)
@@ -115,13 +112,7 @@ Proof.
     assert (E2 : ((e =? E_PLAIN_DICT) || (e =? E_RLE_DICT) = true)%Z) by (destruct He; subst; reflexivity).
     assert (E3 : ((e =? E_RLE) = false)%Z) by (destruct He; subst; reflexivity).
     rewrite E1, E2, E3. cbn [orb].
-    assert (WR : (match cd_type cd with
-                  | BOOLEAN => ROk (1, (w :: hyb_enc_x w runs) ++ lp_trail p)
-                  | _ => match (w :: hyb_enc_x w runs) ++ lp_trail p with
-                         | w0 :: r => ROk (w0, r) | [] => RBad "read_byte past the end"%string end
-                  end) = ROk (w, hyb_enc w runs ++ lp_trail p)).
-    { cbn [store_ok_for_reader] in RO. rewrite hyb_enc_x_ok. destruct (cd_type cd); try reflexivity. contradiction. }
-    rewrite WR. cbn [rbind andb]. rewrite !andb_false_r. cbn [negb].
+    rewrite hyb_enc_x_ok. cbn [app rbind andb]. rewrite !andb_false_r. cbn [negb].
     destruct (hyb_rt false w k runs (lp_trail p) Hr Hk) as (r & E).
     destruct (w =? 0) eqn:W0; cbn [negb].
     + (* width 0: np.zeros *)
@@ -190,7 +181,7 @@ Lemma takeN_all {A} (b : list A) : takeN (lenN b) b = b.
 Proof. rewrite <- (app_nil_r b) at 2. apply takeN_app_exact. Qed.
 
 Theorem rd_page_v2_spec inplace cd dict codec p cs :
-  lp_v2 p = true -> page_wf cd p -> store_ok_for_reader cd (lp_store p) -> page_cells cd dict p = Some cs ->
+  lp_v2 p = true -> page_wf cd p -> page_cells cd dict p = Some cs ->
   (* the in-place PLAIN paths are only taken for fixed-width numeric columns *)
   (inplace = true -> match lp_store p with SPlain _ => num_width (cd_type cd) <> None | _ => True end) ->
   (* a DELTA page with NULLs is refused by the reader (AssertionError) *)
@@ -201,7 +192,7 @@ Theorem rd_page_v2_spec inplace cd dict codec p cs :
              (v2_lb cd p ++ v2_body cd codec p)
   = ROk cs.
 Proof.
-  intros V2 [LW SW] RO PC INP DNN. unfold page_cells in PC.
+  intros V2 [LW SW] PC INP DNN. unfold page_cells in PC.
   set (lv := page_levels cd p) in *. set (k := count_def (cd_maxdef cd) lv) in *.
   destruct (store_values cd dict k (lp_store p)) as [vs|] eqn:SV; [|discriminate].
   assert (LEN : N.of_nat (length lv) = lp_nvals p).
